@@ -108,3 +108,48 @@ Inductive follower_ge : list bh -> Prop :=
 
 Definition pairwise_noncontradicting (hs : list bh) : Prop :=
   forall b1 b2, In b1 hs -> In b2 hs -> b1 <> b2 -> contradicting b1 b2 = false.
+
+(* ---------------------------------------------------------------- several generator keys enabled on one node *)
+(* The generator DB holds one record PER generator address; every forge reads and writes the record of the generator
+   assigned to the slot only.  Nothing else of the generator lives in memory between ticks. *)
+Record mst := {
+  mdisk : N -> option geninfo;   (* generator DB: address -> record *)
+  mnode : tip;
+  msyncing : bool;
+  mpublished : list bh            (* headers handed to consensus by any of the node's generators, newest first *)
+}.
+
+Inductive mev :=
+| MForge (who : N) (c : crash_pt)   (* a tick in a slot assigned to the enabled generator [who] *)
+| MTip (t : tip) | MSync (b : bool) | MRestart.
+
+Section Multi.
+  Variable hdr : option geninfo -> tip -> N -> option (bh * geninfo).
+
+  Definition upd (d : N -> option geninfo) (a : N) (i : geninfo) : N -> option geninfo :=
+    fun x => if x =? a then Some i else d x.
+
+  Definition mstep (s : mst) (e : mev) : mst :=
+    match e with
+    | MForge who c =>
+        if msyncing s then s else
+        match hdr (mdisk s who) (mnode s) who with
+        | None => s
+        | Some (h, info) =>
+            match c with
+            | CrashBeforePersist => s
+            | CrashAfterPersist => {| mdisk := upd (mdisk s) who info; mnode := mnode s; msyncing := false; mpublished := mpublished s |}
+            | NoCrash => {| mdisk := upd (mdisk s) who info; mnode := mnode s; msyncing := false; mpublished := h :: mpublished s |}
+            end
+        end
+    | MTip t => {| mdisk := mdisk s; mnode := t; msyncing := msyncing s; mpublished := mpublished s |}
+    | MSync b => {| mdisk := mdisk s; mnode := mnode s; msyncing := b; mpublished := mpublished s |}
+    | MRestart => {| mdisk := mdisk s; mnode := mnode s; msyncing := false; mpublished := mpublished s |}
+    end.
+
+  Definition mrun (s : mst) (evs : list mev) : mst := fold_left mstep evs s.
+  Definition minit (t : tip) : mst := {| mdisk := fun _ => None; mnode := t; msyncing := false; mpublished := [] |}.
+End Multi.
+
+(* the headers signed by generator g *)
+Definition signed_by (g : N) (hs : list bh) : list bh := filter (fun b => gen b =? g) hs.
